@@ -317,6 +317,28 @@ SHARED_MARKERS = ("Rc", "Arc", "Cell", "RefCell", "Mutex", "RwLock", "Atomic", "
 
 
 def cl1(F, R):
+    # an overridden clone_from is a second way to copy a graph: it must set every field from the source as well
+    cf = F.fn("Sodg", "clone_from", "std::clone::Clone")
+    if cf is not None and not cf.derived:
+        R.analysed(cf)
+        raw = Collector(F).collect(cf)
+        fields = [f["name"] for f in F.adts["Sodg"]["variants"][0]["fields"]]
+        done = set()
+        for e in raw:
+            if e.kind == "write":
+                loc, val = strip_load(e.loc), strip_load(e.val)
+                if loc == ("param", 1) and mentions(val, lambda x: x == ("param", 2)) and e.uncond:
+                    done |= set(fields)          # *self = source.clone()
+                if loc[0] == "field" and loc[2].startswith("Sodg::") and strip_load(loc[1]) == ("param", 1) and e.uncond and \
+                        mentions(val, lambda x: x[0] == "field" and x[2] == loc[2] and strip_load(x[1]) == ("param", 2)):
+                    done.add(loc[2].split("::")[1])
+        for f in fields:
+            if f in done:
+                R.ok("CL1", cf.where(), "clone_from() copies field %s from the source" % f)
+            else:
+                R.bad("CL1", "CL1/Sodg::clone_from/field-%s-not-copied" % f, cf.where(),
+                      "the overridden clone_from() does not set `%s` from the source on every path: a graph filled with clone_from() is "
+                      "not a copy of the source" % f)
     b = F.fn("Sodg", "clone", "std::clone::Clone")
     if b is None:
         # derived Clone is fine too
